@@ -94,7 +94,15 @@ def _work(job):
             dpy = athlib.get_distance(up)
             if dpy != nominal:
                 if not (isinstance(dpy, int) and 0 <= nominal - dpy <= 1):
-                    wrong.append(('get_distance(%r) = %r, exact floor %d' % (up, dpy, nominal)))
+                    # the distance the library reads from the code is not the distance the code names: judged on the
+                    # implementation (the estimator is part of this property), then skipped for the model comparison
+                    fails.append(('athlib.get_distance', [up], 'the distance the code names: %d m (or one metre less)' % nominal, repr(dpy), 'distance-of-code',
+                                  'result = athlib.get_distance(%r)' % up))
+                    if DMIN <= nominal <= DMAX:
+                        fv0 = W.canon_py(lambda: athlib.wma_age_factor(gsp, pyages[0], code, year=yi))
+                        if fv0[0] != 'v':
+                            fails.append(('athlib.wma_age_factor', [yi, gsp, pyages[0], code], 'a factor (no exception)', H.show(fv0), 'raises',
+                                          'result = athlib.wma_age_factor(%r, %r, %r, year=%d)' % (gsp, pyages[0], code, yi)))
                     continue
                 hint = dpy; st['hinted'] += 1
         dist = nominal if hint is None else hint
